@@ -57,6 +57,24 @@ def gen_batch(ctx, n, with_corpus=True, extreme_frac=0.1, allow_base=True):
     return cfgs[:n]
 
 
+def f32_cfgs(ctx, n):
+    """Single-precision runs (the Coq replay instance is binary64, so these are checked numerically only): all kernels, all
+    namespaces, ordinary and very peaked likelihoods (after the first resampling step the population then holds tied particles
+    with log-weights of magnitude 1e5..1e6), with checkpoints so that they can be resumed."""
+    out = []
+    for j in range(n):
+        kind = ["base", "minipcn_smc", "emcee_smc", "base"][j % 4]
+        sk = dict(adaptive=True, target_efficiency=[0.5, (0.3, 0.7), 0.8][j % 3])
+        if j % 5 == 1:
+            sk = dict(adaptive=False, n_steps=[3, 7][j % 2])
+        if j % 4 == 2:
+            sk["n_final_samples"] = 24
+        out.append(dict(kind=kind, ns=["torch", "numpy", "jax"][j % 3], width="float32", N=[16, 12, 32][(j // 2) % 3], dims=1 + j % 2,
+                        s=[0.5, 1e-3, 0.05, 3e-4][(j // 3) % 4] if kind == "base" else [0.5, 0.05][(j // 3) % 2], c=[0.0, 1.0][j % 2],
+                        prior="normal", seed=ctx.rng.randrange(1 << 30), mcmc_steps=1, ckpt="cb-every", every=[1, 2][j % 2], sample_kwargs=sk))
+    return out
+
+
 def cfg_key(cfg):
     return repr(sorted((k, repr(v)) for k, v in cfg.items()))
 
